@@ -174,6 +174,7 @@ RunResult runDaemon(const Json::Value& sc, const DaemonHooks* hooks) {
   g.base_ns = realMonoNs();
   g.velapsed_ns = 0;
   g.dt_unknown = sc.get("dt_unknown", false).asBool();
+  g.kill_cost_ms = sc.get("kill_cost_ms", 0).asInt64();
   g.log_access = hooks && hooks->log_access;
 
   const Json::Value& ticks = sc["ticks"];
